@@ -42,6 +42,7 @@ pub fn gen(seed: u64, tier: Tier) -> ScenarioSpec {
         0 => gen::gen_stream(&mut rng, 4000, false),
         _ => StreamSpec::default(),
     };
+    spec.stream.suffix = 0;
     spec.knobs.insert("slp_full_limit".into(), if tier == Tier::Thorough { 40_000 } else { 3_000 });
     spec.knobs.insert("slpp_full_limit".into(), if tier == Tier::Thorough { 80_000 } else { 0 });
     spec.knobs.insert("slpp_samples".into(), if tier == Tier::Thorough { 4000 } else { 300 });
